@@ -34,6 +34,7 @@ type Engine struct {
 	intrinsics map[string]intrinsicFn
 	initPkgs   map[string]bool
 	symLenK    int
+	maxSymElems int
 	maxStep    int
 	maxPaths   int
 	workers    int
@@ -100,6 +101,7 @@ func NewEngine(patterns []string) (*Engine, error) {
 		intrinsics: map[string]intrinsicFn{},
 		initPkgs:   map[string]bool{},
 		symLenK:    8,
+		maxSymElems: 1100,
 		maxStep:    3_000_000,
 		maxPaths:   400_000,
 		workers:    16,
@@ -425,6 +427,9 @@ func (r *Run) sampleString() string {
 // can be assumed afterwards.
 func (r *Run) violation(label, kind, detail string, cond *Term) {
 	c := r.ctx
+	if len(r.notes) > 0 {
+		detail += strings.Join(r.notes, "\n")
+	}
 	notc := c.Not(cond)
 	var open []knownRec
 	for _, k := range r.known {
